@@ -152,7 +152,8 @@ inductive Cls where
   | H  -- halt by design: scheduled upgrade the running binary does not support
   | N  -- not fatal: the caller handles the error (proposal execution failure marks the proposal failed)
   | R  -- unreachable by construction: enumerations are closed, identifiers come from state that
-       -- holds the record (e.g. proposals listed as active exist), addresses derive from public keys
+       -- holds the record (e.g. proposals listed as active exist), addresses derive from public keys,
+       -- uint64 overflow guards on per-epoch block counters (bounded by the number of blocks)
   | F  -- outside the Lean model (beacon backends, key manager, roothash messaging/finalization
        -- internals): pinned by this ledger and exercised by the drivers only
 deriving DecidableEq, Repr
@@ -291,7 +292,8 @@ def ledger : List (String × List (String × Cls)) := [
     ("state.go:AddRewardSingleAttenuated:fmt.Errorf(cometbft/staking: failed transferring to active )", .M),
     ("state.go:AddRewardSingleAttenuated:fmt.Errorf(cometbft/staking: failed depositing commission: )", .M),
     ("signing_rewards.go:updateEpochSigning:fmt.Errorf(loading epoch signing info: %w)", .U),
-    ("signing_rewards.go:updateEpochSigning:err", .U),
+    ("state.go:Update:fmt.Errorf(incrementing total blocks count: overflow, old_t)", .R),
+    ("state.go:Update:fmt.Errorf(incrementing count for entity %s: overflow, old_)", .R),
     ("slashing.go:onEvidenceByzantineConsensus:err", .U),
     ("state.go:SlashEscrow:fmt.Errorf(cometbft/staking: account total balance: %w)", .M),
     ("state.go:slashPool:fmt.Errorf(cometbft/staking: slashAmount.Mul: %w)", .M),
@@ -312,7 +314,8 @@ def ledger : List (String × List (String × Cls)) := [
     ("staking.go:onEpochChange:fmt.Errorf(cometbft/staking: failed to redeem debonding sha)", .M),
     ("state.go:SetDebondingDelegation:fmt.Errorf(error merging debonding delegations: %w)", .M),
     ("signing_rewards.go:rewardEpochSigning:fmt.Errorf(loading epoch signing info: %w)", .U),
-    ("signing_rewards.go:rewardEpochSigning:fmt.Errorf(determining eligibility: %w)", .U),
+    ("state.go:EligibleEntities:fmt.Errorf(overflow in total blocks, total=%d)", .R),
+    ("state.go:EligibleEntities:fmt.Errorf(entity %s: overflow in threshold comparison, cou)", .R),
     ("state.go:AddRewards:fmt.Errorf(cometbft/staking: failed multiplying by reward f)", .M),
     ("state.go:AddRewards:fmt.Errorf(cometbft/staking: failed multiplying by reward s)", .M),
     ("state.go:AddRewards:fmt.Errorf(cometbft/staking: failed dividing by reward amou)", .M),
